@@ -5,9 +5,9 @@ CONSTANTS
   DQ <- cDQ
   SQ <- cSQ
   BS <- cBS
-  Alphabet <- TokAlphabet
-  MaxLen = 6
-  Prefix <- cNoPrefix
+  Alphabet <- DqAlphabet
+  MaxLen = 5
+  Prefix <- cDqPrefix3
   PatternKw <- cPattern
 INIT Init
 NEXT Next
